@@ -257,33 +257,43 @@ def run_case(chk, case):
             check_collection(chk, case, k, df, score, files, level_names, None)
 
 
-def rollup_case(chk, rng):
-    """stand-alone roll-up tool on result files written by assign_confidence"""
-    import mokapot.brew_rollup as BR
-    import random
+ROLLUP_LEVELS = [("precursor", "Precursor"), ("modified_peptide", "ModifiedPeptide"), ("peptide", "peptide"),
+                 ("peptide_group", "PeptideGroup")]          # order of brew_rollup.compute_rollup_levels("psm")
 
-    case = dict(n_spectra=rng.choice([6, 12, 25]), max_per=rng.choice([1, 2, 3]), levels=["ModifiedPeptide"] if rng.random() < 0.5 else [],
+
+def rollup_case(chk, rng):
+    """stand-alone roll-up tool on result files written by assign_confidence (with extra level columns whose
+    ids are deliberately NOT nested in one another: a precursor may belong to several peptide groups)"""
+    BR = P.mod("mokapot.brew_rollup")
+    import contextlib, io
+
+    case = dict(n_spectra=rng.choice([6, 12, 25]), max_per=rng.choice([1, 2, 3]),
+                levels=[c for c in ("ModifiedPeptide", "Precursor", "PeptideGroup") if rng.random() < 0.6],
                 ncoll=rng.choice([1, 2, 3]), data_seed=rng.randrange(1 << 30), npep=rng.choice([3, 6, 12]), enc="pm1",
                 optional=("ExpMass",), ties=False)
     tabs = build_tables(case)
-    # distinct scores across collections (the tool merges all files)
-    off = 0
+    import random
+    r = random.Random(case["data_seed"] + 1)
     tabs2 = []
-    for df, score in tabs:
-        tabs2.append((df, score * 8 + off))
-        off += 1
+    for off, (df, score) in enumerate(tabs):
+        df = df.copy()
+        pre = ["" if x == 1 else "decoy_" for x in df["Label"]]
+        if "PeptideGroup" in df.columns:     # groups independent of the peptide
+            df["PeptideGroup"] = [p_ + f"G{r.randrange(4)}" for p_ in pre]
+        if "Precursor" in df.columns:
+            df["Precursor"] = [p_ + f"pre{r.randrange(6)}" for p_ in pre]
+        tabs2.append((df, score * 8 + off))           # distinct scores across collections
     with P.workdir() as d:
         datasets = [mkdata.read_dataset(mkdata.write_table(df, d / f"in{k}.pin")) for k, (df, _) in enumerate(tabs2)]
         src = d / "src"; src.mkdir(); dest = d / "dest"; dest.mkdir()
         try:
             with P.pep_kernel(stub=True):
                 P.run_assign_confidence(datasets, [s for _, s in tabs2], src,
-                                        prefixes=[f"p{k}" for k in range(len(tabs2))], decoys=True, do_rollup=False)
-            import contextlib, io
+                                        prefixes=[f"p{k}" for k in range(len(tabs2))], decoys=True, do_rollup=True)
             with contextlib.redirect_stdout(io.StringIO()), contextlib.redirect_stderr(io.StringIO()), \
                     P.pep_kernel(stub=True):
                 BR.main(["--level", "psm", "-s", str(src), "-d", str(dest), "-r", "roll"])
-        except SystemExit as e:
+        except SystemExit:
             chk.reject("rollup-exit"); return
         except Exception as e:
             if any(len(P.read_result(f)) == 0 for f in src.glob("*.psms")):
@@ -292,30 +302,26 @@ def rollup_case(chk, rng):
             chk.spec_violation("rollup-exception:" + type(e).__name__, dict(case=case, error=str(e)[:300], clause="brew_rollup raised"))
             return
         # merged input rows = all rows of the psm result files
+        first = P.read_result(src / "p0.targets.psms")
+        present = [(ln, col) for ln, col in ROLLUP_LEVELS if col in first.columns]
+        ids = [dict() for _ in present]
         allrows, meta = [], {}
-        pep_ids, mod_ids = {}, {}
         if any(len(P.read_result(src / f"p{k}.{w}.psms")) == 0 for k in range(len(tabs2)) for w in ("targets", "decoys")):
-            chk.reject("rollup-input-file-without-rows")   # column types of an empty file cannot be inferred
+            chk.reject("rollup-input-file-without-rows")
             return
         for k in range(len(tabs2)):
             for which in ("targets", "decoys"):
                 f = P.read_result(src / f"p{k}.{which}.psms")
                 for _, rec in f.iterrows():
                     i = len(allrows)
-                    keys = [pep_ids.setdefault(rec["peptide"], len(pep_ids))]
-                    if "ModifiedPeptide" in f.columns:
-                        keys.append(mod_ids.setdefault(rec["ModifiedPeptide"], len(mod_ids)))
+                    keys = [ids[l].setdefault(rec[col], len(ids[l])) for l, (_, col) in enumerate(present)]
                     allrows.append([i, i, keys, which == "targets", int(rec["score"])])
                     meta[rec["PSMId"]] = i
         merged = sorted(allrows, key=lambda r: -r[4])
-        # (with do_rollup=False the PSM files carry no extra level column, so only the peptide level exists)
-        lv_names = ["peptide"] + (["modified_peptide"] if mod_ids else [])
-        resp = common.driver_batch([req("rolluptool", len(lv_names), merged)] +
-                                   [req("levelspec", l, merged, []) for l in range(0)])
-        model = [[int(x) for x in lv] for lv in dec(resp[0])]
+        model = [[int(x) for x in lv] for lv in dec(common.driver_batch([req("rolluptool", len(present), merged)])[0])]
         ok_spec, ok_model, clause = True, True, None
         reqs, plan = [], []
-        for l, ln in enumerate(lv_names):
+        for l, (ln, _col) in enumerate(present):
             t = P.read_result(dest / f"roll.targets.{ln}s"); dd = P.read_result(dest / f"roll.decoys.{ln}s")
             if t is None or dd is None:
                 chk.spec_violation("rollup-missing-file", dict(case=case, clause=f"roll.targets.{ln}s missing")); return
@@ -325,22 +331,21 @@ def rollup_case(chk, rng):
             if any(allrows[i][3] != tt for i, tt in got):
                 ok_spec, clause = False, "target/decoy routed to the wrong file"
             reqs.append(req("levelspec", l, merged, [allrows[i] for i, _ in got])); plan.append(ln)
-            if [i for i, _ in got] != model[l if ln == "peptide" else 1]:
+            if [i for i, _ in got] != model[l]:
                 ok_model = False
-            # q-values
             qcol = "q_value" if "q_value" in t.columns else "q-value"
             qreq = req("qspec", True, [[Fraction(allrows[i][4]), allrows[i][3]] for i, _ in got])
-            exp = [rounded(a_rat(x)) for x in dec(common.driver_batch([qreq])[0])]
+            exp = [rounded(a_rat(x)) for x in dec(common.driver_batch([qreq])[0])] if got else []
             qgot = {meta[x]: float(q) for x, q in list(zip(t[idcol], t[qcol])) + list(zip(dd[idcol], dd[qcol]))}
             if any(qgot[i] != e for (i, _), e in zip(got, exp)):
                 ok_spec, clause = False, f"rollup level {ln}: q-values differ from the C01 formula"
-        for ln, r in zip(plan, common.driver_batch(reqs)):
-            if r.strip() != "T":
-                ok_spec, clause = False, f"rollup level {ln}: not one best row per entity"
-        chk.case(None, ("rollup", case["data_seed"]), sample=dict(rollup=case))
-        chk.count("rollup-tool", len(lv_names))
+        for ln, r_ in zip(plan, common.driver_batch(reqs)):
+            if r_.strip() != "T":
+                ok_spec, clause = False, f"rollup level {ln}: not exactly one best row per entity"
+        chk.case(None, ("rollup", case["data_seed"]), sample=dict(rollup=case, levels=[ln for ln, _ in present]))
+        chk.count("rollup-tool-levels", len(present))
         if not ok_spec:
-            chk.spec_violation("rollup-tool", dict(case=case, clause=clause))
+            chk.spec_violation("rollup-tool", dict(case=case, clause=clause, levels=[ln for ln, _ in present]))
         elif not ok_model:
             chk.corr_break("rolluptool", dict(case=case))
 
@@ -385,7 +390,7 @@ def main(chk, args):
     n = chk.scale(45 if chk.tier == "quick" else 500)
     for _ in range(n):
         run_case(chk, gen_case(chk.rng, chk.tier))
-    for _ in range(4 if chk.tier == "quick" else 40):
+    for _ in range(chk.scale(8 if chk.tier == "quick" else 60)):
         rollup_case(chk, chk.rng)
     minimise(chk)
     lc = common.leanchecker("C03") if chk.tier == "thorough" else None
